@@ -72,6 +72,22 @@ def _generated_deck():
     a.text_frame.paragraphs[0].runs[0].font.bold = True
     a.fill.solid()
     a.line.width = 12700
+    # guide lists as other producers leave them: a guide the preset does not define, a partial list, guides in another order, no a:avLst
+    from lxml import etree as _et
+
+    A = "http://schemas.openxmlformats.org/drawingml/2006/main"
+    for shp_type, guides in ((MSO_SHAPE.CHEVRON, [("adj", 25000), ("adj2", 16667)]), (MSO_SHAPE.ARC, [("adj2", 31000)]),
+                             (MSO_SHAPE.BLOCK_ARC, [("adj3", 11111), ("adj1", 9000000), ("adj2", 22222)]), (MSO_SHAPE.RECTANGLE, [("hf", 50000)]), (MSO_SHAPE.DONUT, None)):
+        shp = sh.add_shape(shp_type, 0, 0, Inches(1), Inches(1))
+        geom = shp._element.spPr.find("{%s}prstGeom" % A)
+        av = geom.find("{%s}avLst" % A)
+        if guides is None:
+            geom.remove(av)
+            continue
+        for gd in list(av):
+            av.remove(gd)
+        for nm, val in guides:
+            _et.SubElement(av, "{%s}gd" % A, name=nm, fmla="val %d" % val)
     sh.add_textbox(0, 0, 100, 100).text_frame.text = "tb"
     sh.add_picture(io.BytesIO(png()), 0, 0)
     sh.add_connector(MSO_CONNECTOR.ELBOW, 0, 0, 10, 10)
